@@ -452,6 +452,23 @@ def gen_rpms(rng):
     return {"header": {"type": "productmd.rpms", "version": "1.2"}, "payload": {"compose": c, "rpms": rpms}}
 
 
+# ------------------------------------------------------------------------------------------------ ids with several 8-digit runs
+ID_PREFIXES = ["rolling-20240101", "x-20240101.n.1", "r-123456789", "a-20200101-20200202", "a_20200101.20200202", "20240101",
+               "p.19990101.t.7_q", "v1234567890123456"]
+SUFFIX_OF = {"production": "", "nightly": ".n", "test": ".t", "ci": ".ci", "development": ".d"}
+
+
+def tricky_id(comp, k):
+    """a compose id whose release part already holds 8-digit runs (a date-like version, `<8 digits>.<letters>.<digits>` look-alikes,
+    9+ digits, two dates separated by - . _): below 0.3 date/type/respin are what FOLLOWS THE LAST run of eight digits"""
+    if comp.get("type") not in SUFFIX_OF or not isinstance(comp.get("respin"), int) or not (0 <= comp["respin"] < 10 ** 7):
+        return
+    date = comp["date"]
+    if not (isinstance(date, str) and len(date) == 8 and date.isdigit()):
+        return
+    comp["id"] = "%s-%s%s.%d" % (ID_PREFIXES[k % len(ID_PREFIXES)], date, SUFFIX_OF[comp["type"]], comp["respin"])
+
+
 # ------------------------------------------------------------------------------------------------ the property
 class C05(Prop):
     id = "C05"
@@ -560,15 +577,22 @@ class C05(Prop):
                     c = spec["compose"]
                     c["id"] = c["id"][:c["id"].rindex(".") + 1] + str(r)
                     c["respin"] = r
+                if L.vt(ver) < (0, 3) and cnt["ci"] % 3 == 0:
+                    tricky_id(spec["compose"], cnt["ci"] // 3)
                 yield {"op": "ci", "args": {"spec": spec, "version": ver, "keep_internal": rng.random() < 0.4,
                                             "opts": flags("ci", ["no_final", "explicit_defaults", "upper_type", "type_mismatch"])}}
             elif k < 11:
                 ver = nxt("img", L.IMG_VERSIONS)
-                yield {"op": "img", "args": {"spec": self.img_spec(rng, tier, ver), "version": ver,
+                ispec = self.img_spec(rng, tier, ver)
+                if L.vt(ver) < (0, 3) and cnt["img"] % 2 == 0:
+                    tricky_id(ispec["compose"], cnt["img"] // 2)
+                yield {"op": "img", "args": {"spec": ispec, "version": ver,
                                              "opts": flags("img", ["empty_cell", "no_final", "type_mismatch", "keep_defaults"])}}
             elif k < 14:
                 ver = nxt("rpms", L.RPMS_VERSIONS)
                 doc = gen_rpms(rng)
+                if L.vt(ver) < (0, 3) and cnt["rpms"] % 2 == 0:
+                    tricky_id(doc["payload"]["compose"], cnt["rpms"] // 2)
                 fl = flags("rpms", ["no_final", "type_mismatch", "empty_bucket"])
                 if fl.get("empty_bucket") and L.vt(ver) > (0, 3):
                     # an empty variant and an empty arch bucket: stored verbatim by the >= 0.4 readers (a 0.3 manifest cannot say it)
